@@ -911,6 +911,9 @@ func (f *memFile) ReadAt(p []byte, off int64) (n int, err error) {
 		// This would be a surprise!
 		return 0, fs.ErrInvalid
 	}
+	if off < 0 {
+		return 0, fs.ErrInvalid
+	}
 	if off >= int64(len(f.node.data)) {
 		return 0, io.EOF
 	}
@@ -926,16 +929,21 @@ func (f *memFile) Seek(offset int64, whence int) (int64, error) {
 		// tarfs-backed files don't support Seek.
 		return 0, fs.ErrInvalid
 	}
+	var abs int64
 	switch whence {
 	case io.SeekStart:
-		f.offset = offset
+		abs = offset
 	case io.SeekCurrent:
-		f.offset += offset
+		abs = f.offset + offset
 	case io.SeekEnd:
-		f.offset = int64(len(f.node.data)) + offset
+		abs = int64(len(f.node.data)) + offset
 	default:
 		return 0, errors.New("invalid whence")
 	}
+	if abs < 0 {
+		return 0, fs.ErrInvalid
+	}
+	f.offset = abs
 	return f.offset, nil
 }
 
@@ -950,7 +958,14 @@ func (f *memFile) Write(p []byte) (n int, err error) {
 	if f.openMode&os.O_APPEND != 0 && f.openMode&os.O_RDWR != 0 && f.openMode&os.O_WRONLY != 0 {
 		return 0, errors.New("file not opened in write mode")
 	}
+	if len(p) == 0 {
+		return 0, nil
+	}
 	if f.offset+int64(len(p)) > int64(len(f.node.data)) {
+		if hole := f.offset - int64(len(f.node.data)); hole > 0 {
+			// seeking past the end and writing leaves a hole that reads as zeros
+			f.node.data = append(f.node.data, make([]byte, hole)...)
+		}
 		f.node.data = append(f.node.data[:f.offset], p...)
 	} else {
 		copy(f.node.data[f.offset:], p)
